@@ -8,6 +8,7 @@ import (
 	"crypto/sha256"
 	"encoding/hex"
 	"encoding/json"
+	"errors"
 	"fmt"
 	"go/parser"
 	"go/token"
@@ -52,11 +53,18 @@ type c18Reader struct {
 	n     int
 	draws []c18Draw
 	chunk int // when > 0, a Read hands out at most this many bytes (a reader may return short)
+	// failFor > 0: the first failFor reads fail with an error (and fill nothing); failFor < 0: every read fails
+	failFor int
+	reads   int
 }
 
 func (r *c18Reader) Read(p []byte) (int, error) {
 	r.mu.Lock()
 	defer r.mu.Unlock()
+	r.reads++
+	if r.failFor < 0 || r.reads <= r.failFor {
+		return 0, errors.New("random source unavailable")
+	}
 	var b []byte
 	if r.fixed != nil {
 		b = r.fixed
@@ -264,6 +272,23 @@ func c18Exec(c c18Case) (keys []string, detail string) {
 			keys = append(keys, "C18/id-not-made-of-16-bytes-of-the-source")
 		}
 		return dedupe(keys), fmt.Sprintf("builder=%d source=%x id=%q %s", c.History[0], c.Pattern, id, detail)
+	case "failing-source":
+		// the random source fails (History[1] reads in a row, or always when negative): whatever
+		// the builder does about it - an error, a panic, a later successful draw - no message may
+		// leave with an ID that is not made of 16 bytes the source handed out
+		rd := &c18Reader{failFor: c.History[1]}
+		var id string
+		var err error
+		p := guard(func() { withReader(rd, func() { id, err = c18Build(world.SP(), c.History[0]) }) })
+		detail = fmt.Sprintf("builder=%d failing reads=%d | id=%q err=%v panic=%.80q draws=%d", c.History[0], c.History[1], id, err, p, len(rd.draws))
+		if id == "" {
+			return nil, detail // no message was issued
+		}
+		k2, d2 := c18JudgeIDs([]string{id}, rd.draws)
+		if len(rd.draws) == 0 || len(k2) > 0 || strings.Contains(d2, "not traceable to the owned source") {
+			return []string{"C18/id-issued-although-the-random-source-failed"}, detail + " | " + d2
+		}
+		return nil, detail
 	case "history":
 		sps := []*saml2.SAMLServiceProvider{world.SP(), world.SP()}
 		rd := &c18Reader{}
@@ -401,6 +426,21 @@ func c18Run(r *mc.Run) {
 			r.Transition(1)
 			r.Bucket("short-reads")
 			r.Nontrivial(fmt.Sprintf("short-reads/%d/%d", chunk, builder))
+			for _, k := range keys {
+				r.Violation(k, detail, c)
+			}
+		}
+	}
+	// a source whose reads fail 1, 2, 3, 5 times in a row, or always
+	for _, fails := range []int{1, 2, 3, 5, -1} {
+		for builder := 0; builder < 3; builder++ {
+			c := c18Case{Kind: "failing-source", History: []int{builder, fails}}
+			keys, detail := c18Exec(c)
+			r.Eval(1)
+			r.State(1)
+			r.Transition(1)
+			r.Bucket("failing-source")
+			r.Nontrivial(fmt.Sprintf("failing-source/%d/%d", fails, builder))
 			for _, k := range keys {
 				r.Violation(k, detail, c)
 			}
